@@ -1,6 +1,7 @@
 """C16 -- Output ports fan out in order without duplicates (structural clauses)."""
 import re
 from .model import *
+from .bits import cmp_tests
 from .facts import Site, op_place, Call, proj_field_name
 from .futflow import ROOT_RX
 
@@ -182,6 +183,17 @@ def r5(run, db):
         rm_ = [c for c in f.calls() if c.matches(r"UnboundedReceiver::<T>::recv_many$")]
         dp = [c for c in f.calls() if c.callee and c.callee.endswith("::dispatch_batch")]
         run.check(len(rm_) == 1 and len(dp) == 1 and f.in_cycle(dp[0].site) and f.reaches_after(rm_[0].site, dp[0].site), "v2|loop", "fan-out loop: recv_many then dispatch_batch, once per batch", "fan-out loop shape changed", f.where())
+        if rm_ and dp:
+            # every non-empty batch is dispatched: from the completion of recv_many no path returns to the next recv_many
+            # without passing dispatch_batch (a batch can hold subscriptions behind data, so nothing may be skipped whole)
+            aw = await_of_call(f, rm_[0])
+            ok = bool(aw)
+            for a in aw:
+                zt = [t for t in cmp_tests(f) if t["op"] == "Eq" and t["b"] == ("c", 0) and t["a"][0] == "call" and t["a"][1].bb == a.poll.bb or (t["op"] == "Eq" and t["b"] == ("c", 0))]
+                nonzero = [t["false_edge"] for t in zt if t["false_edge"]]
+                ok = ok and bool(nonzero) and all(f.must_pass(Site(e[1], 0), [dp[0].site], to_sites=[rm_[0].site] + f.exits()) for e in nonzero)
+            run.check(ok, "v2|every-batch-dispatched", "every non-empty batch received is handed to dispatch_batch (no path back to recv_many around it)",
+                      "the fan-out loop can discard a received batch without dispatching it (e.g. a fast path for `no subscribers` that looks only at the first entry): a subscription queued behind a publication in that batch is lost", dp[0].where())
 
 
 def r6(run, db):
